@@ -1,11 +1,58 @@
 import XmppModel.Model.Negotiate
+import XmppModel.Lemmas.Negotiate
+/-!
+# C01 — features are negotiated only when allowed, in order, at most once
+
+Property theorems about the negotiation machine `Model/Negotiate.lean` (the model of
+`negotiateSession`, `negotiator` and `negotiateFeatures` after the `fix:` commits).
+Quantifiers: every configuration `C` (any masks, mandatory or voluntary, restarting or not,
+negotiable or informational, shared namespaces), every behaviour `O` of the callbacks and
+every fault pattern, every initial state `st0`, every peer script, every pick script (map
+iteration order), every number of steps: `Reach … c` is "c is the configuration after some
+number of steps from the initial one".
+-/
 namespace XmppModel.Props.C01
 open XmppModel XmppModel.Negotiate
 
-/-- final control points are fixed points of `step` -/
-theorem C01_final_fixed (C : List Feature) (O : Oracle) (c : Conf) (h : c.pc.final = true) :
-    step C O c = c := by
-  unfold step
-  cases hp : c.pc <;> simp_all [Pc.final]
+variable {C : List Feature} {O : Oracle} {st0 : St} {script : List Peer} {picks : List FName}
+
+theorem invA_reach {c : Conf} (h : Reach C O st0 script picks c) : InvA C c := by
+  refine reach_ind (P := InvA C) ?_ (fun c _ hc => invA_step C O c hc) c h
+  constructor
+  · intro h; cases h
+  · intro e he; cases he
+
+/-- **prerequisites**: whenever a feature's `Negotiate` runs — selected from the list or by
+the unconditional STARTTLS attempt, on either side — every necessary bit is set and no
+prohibited bit is set in the session state of that moment -/
+theorem C01_prereq {c : Conf} (h : Reach C O st0 script picks c)
+    {f : Feature} {st : St} {req forced srv : Bool} {r : NegRes}
+    (he : Ev.neg f st req forced srv r ∈ c.tr) : eligible st f = true :=
+  ((invA_reach h).good _ he).1
+
+/-- **negotiable**: `Negotiate` is only ever called on a feature that has one (in particular
+the unconditional STARTTLS attempt never calls a nil function) -/
+theorem C01_negotiable {c : Conf} (h : Reach C O st0 script picks c)
+    {f : Feature} {st : St} {req forced srv : Bool} {r : NegRes}
+    (he : Ev.neg f st req forced srv r ∈ c.tr) : f.negotiable = true :=
+  ((invA_reach h).good _ he).2
+
+/-- **monotone**, one step: no step ever clears a state bit -/
+theorem C01_monotone_step (c : Conf) : sub c.st (step C O c).st := step_mono C O c
+
+/-- **monotone**, along a run: the state after `n + m` steps contains the state after `n` -/
+theorem C01_monotone_run (c : Conf) (n m : Nat) : sub (run C O n c).st (run C O (n + m) c).st := by
+  induction m with
+  | zero => exact sub_refl _
+  | succ m ih =>
+    rw [← Nat.add_assoc, run_succ]
+    exact sub_trans ih (step_mono C O _)
+
+/-- **monotone**: every reachable state contains the initial state -/
+theorem C01_monotone {c : Conf} (h : Reach C O st0 script picks c) : sub st0 c.st := by
+  obtain ⟨n, rfl⟩ := h
+  have := C01_monotone_run (C := C) (O := O) (init st0 script picks) 0 n
+  rw [Nat.zero_add] at this
+  exact this
 
 end XmppModel.Props.C01
